@@ -15,9 +15,9 @@ import (
 )
 
 const (
-	marginMs   = int64(600_000)     // nothing within 10 minutes of the horizon
-	futureMs   = int64(120_000)     // nothing younger than now − 2 minutes
-	mStepSec   = int64(600)         // metrics datapoints sit on 600-s boundaries (one range-query bucket each)
+	marginMs   = int64(600_000) // nothing within 10 minutes of the horizon
+	futureMs   = int64(120_000) // nothing younger than now − 2 minutes
+	mStepSec   = int64(600)     // metrics datapoints sit on 600-s boundaries (one range-query bucket each)
 	maxAgeMs   = int64(400 * 86400_000)
 	maxAgeMStp = int64(20 * 144) // metrics: at most 20 days before the horizon (range-query size)
 )
